@@ -28,6 +28,10 @@ def extra_checks(ft, tier, seed):
     out.append(harness.standin('standin.meta-do-not-copy', 'bounded/c02_meta.py', ["--standin", "-", os.path.join(harness.VERIF, "replays", PROPERTY)],
                                'A-META for do_not_copy: how class-level / attribute-level / inherited declarations reach the Attr records (spec_class.bootstrap, reflection)',
                                '30 parent/child declaration combinations x attributes x deepcopy / with / update / reset (150 cases)'))
+    out.append(harness.standin("standin.extra-corpus", "bounded/spec_extra.py", ["--find", PROPERTY, "-", os.path.join(harness.VERIF, "replays", PROPERTY)],
+                               "usages outside the main corpus (tuple-valued attributes, nested updates failing half-way, containers with mutable values, "
+                               "keyed containers handed in whole, update_<attr>() with nothing to apply, chains of cached properties)",
+                               "the hand-written cases of bounded/spec_extra.py registered for this property"))
     for f in FINDINGS:
         r = harness.run_json("bounded/spec.py", ["--finding", f])
         if r.get("reproduces"):
